@@ -333,8 +333,23 @@ class X12Reader(X12Base):
         @param seg_data: Segment data instance
         @type seg_data: L{segment<segment.Segment>}
         """
-        X12Base._parse_segment(self, seg_data)
         seg_id = seg_data.get_seg_id()
+        if seg_id in ('ISA', 'GS', 'ST'):
+            # A header must arrive directly inside its parent loop
+            parent = {'ISA': None, 'GS': 'ISA', 'ST': 'GS'}[seg_id]
+            cur = self.loops[-1][0] if self.loops else None
+            if cur != parent:
+                if cur is None:
+                    err_str = '{} segment found outside of a {} loop'.format(seg_id, parent)
+                else:
+                    err_str = '{} segment found inside an unterminated {} loop'.format(seg_id, cur)
+                if seg_id == 'ISA':
+                    self._isa_error('024', err_str)
+                elif seg_id == 'GS':
+                    self._gs_error('3', err_str)
+                else:
+                    self._st_error('2', err_str)
+        X12Base._parse_segment(self, seg_data)
         if seg_id == 'IEA':
             if self.loops and self.loops[-1][0] != 'ISA':
                 # Unterminated GS loop
